@@ -160,12 +160,23 @@ def check_who(ctx: Context, rep, rule: str) -> None:
            message="every new shard gets a file name derived from uuid4() "
            "(followed through helpers)")
     si = ctx.fn(shard_init)
+    from sa.rules.common import expand_calls
+
+    def own_path(e: ast.AST | None) -> bool:
+        # <dataset path> / <own shard_info>.file_infos[0].file_path
+        x = expand_calls(ctx, si, e)
+        if not (isinstance(x, ast.BinOp) and isinstance(x.op, ast.Div)):
+            return False
+        right = ast.unparse(x.right)
+        return right in ("self.shard_info.file_infos[0].file_path",
+                         "shard_info.file_infos[0].file_path") and \
+            "dataset_path" in ast.unparse(x.left)
+
     ok = any(ctx.is_call(si, c, "get_shard_writer.get_shard_writer") and
-             "_get_full_path" in ast.unparse(ctx.arg(c, 1, "shard_file") or
-                                             ast.Constant(0))
-             for c in si.calls())
+             own_path(ctx.arg(c, 1, "shard_file")) for c in si.calls())
     rep.ob(rule, ok, loc=si.loc(), where=si.qualname,
-           construct="get_shard_writer(shard_file=self._get_full_path())",
+           construct="get_shard_writer(shard_file=<dataset path>/"
+           "<own shard_info>.file_infos[0].file_path)",
            message="the writer's file is the shard's own (fresh) path")
 
 
